@@ -1,13 +1,14 @@
 (* conv: io n *)
 (* C18 driver: one case per input line, one observation per output line.
    outcome of an optional string: 0 = None, 1 s = Some s, 2 = ValueError, 3 = UnicodeEncodeError,
-   9 = not evaluated (an earlier step did not yield a string) *)
-let put_exn = function ValueError -> put_int 2 | UnicodeEncodeError -> put_int 3
+   4 = Exception, 9 = not evaluated (an earlier step did not yield a string) *)
+let put_exn = function ValueError -> put_int 2 | UnicodeEncodeError -> put_int 3 | PlainException -> put_int 4
 let put_oo = function
   | Ret None -> put_int 0
   | Ret (Some s) -> put_int 1; put_nstr s
   | Raise e -> put_exn e
 let put_os = function Ret s -> put_int 1; put_nstr s | Raise e -> put_exn e
+let next_opt () = if next_int () = 1 then Some (next_str ()) else None
 let put_opt = function None -> put_int 0 | Some s -> put_int 1; put_nstr s
 let dispatch = function
   | "rt" ->      (* path -> from, to(from), from(to(from)), TextDocument(from).path; S: spec_uri norm; guard abs empty_authority *)
@@ -24,10 +25,10 @@ let dispatch = function
     let (su, sn) = spec_roundtrip p in
     put_nstr su; put_nstr sn;
     put_bool (guard p); put_bool (abs_path p); put_bool (empty_authority p)
-  | "to" ->      (* uri -> to_fs_path, uri_scheme, TextDocument(uri).path, approx, plain, scheme_is_file *)
+  | "to" ->      (* uri -> to_fs_path, uri_scheme, TextDocument(uri).path, approx, plain, scheme_is_file, spec_scheme *)
     let u = next_str () in
     put_oo (to_fs_path (Some u)); put_oo (uri_scheme (Some u)); put_os (text_document_path u);
-    put_bool (approx_uri u); put_bool (plain_uri u); put_bool (scheme_is_file u)
+    put_bool (approx_uri u); put_bool (plain_uri u); put_bool (scheme_is_file u); put_opt (spec_scheme u)
   | "none" -> put_oo (from_fs_path None); put_oo (to_fs_path None); put_oo (uri_scheme None)
   | "quote" -> put_os (quote (next_str ()))
   | "unquote" -> put_nstr (unquote (next_str ()))
@@ -47,5 +48,49 @@ let dispatch = function
     let r = rfc3986_split u in
     put_opt r.u_scheme; put_opt r.u_authority; put_nstr r.u_path; put_opt r.u_query; put_opt r.u_fragment;
     put_opt (pct_decode u)
+  | "wrt" ->     (* IS_WIN: path -> from, to(from), from(to(from)); S: uri, win_norm; guard, empty authority *)
+    let p = next_str () in
+    let u1 = from_fs_path_gen true (Some p) in
+    put_oo u1;
+    (match u1 with
+     | Ret (Some u) ->
+       let b = to_fs_path_gen true (Some u) in
+       put_oo b;
+       (match b with Ret (Some q) -> put_oo (from_fs_path_gen true (Some q)) | _ -> put_int 9)
+     | _ -> put_int 9; put_int 9);
+    let (su, sn) = spec_roundtrip_win p in
+    put_nstr su; put_nstr sn; put_bool (win_guard p); put_bool (empty_authority (win_slashed p))
+  | "wto" -> let u = next_str () in put_oo (to_fs_path_gen true (Some u)); put_bool (approx_uri u)
+  | "uw" ->      (* is_win uri scheme? netloc? path? params? query? fragment? -> uri_with *)
+    let w = next_int () = 1 in
+    let u = next_str () in
+    let a = next_opt () in let b = next_opt () in let c = next_opt () in
+    let d = next_opt () in let e = next_opt () in let f = next_opt () in
+    put_os (uri_with_gen w u a b c d e f); put_bool (approx_uri u)
+  | "uwid" ->    (* path -> u = from(p), uri_with(u, path = to_fs_path(u)); S: spec_uri p; guard *)
+    let p = next_str () in
+    (match from_fs_path (Some p) with
+     | Ret (Some u) ->
+       (match to_fs_path (Some u) with
+        | Ret (Some b) -> put_os (uri_with u None None (Some b) None None None)
+        | _ -> put_int 9)
+     | _ -> put_int 9);
+    put_nstr (spec_uri p); put_bool (guard p)
+  | "uwr" ->     (* p fp netloc? query? fragment? -> r = uri_with(from(p), ...), urlparse r; S; guard; in class F29 *)
+    let p = next_str () in let fp = next_str () in
+    let n = next_opt () in let q = next_opt () in let f = next_opt () in
+    (match from_fs_path (Some p) with
+     | Ret (Some u) ->
+       let r = uri_with u None n (Some fp) None q f in
+       put_os r;
+       (match r with
+        | Ret r' ->
+          (match urlparse r' with
+           | Ret (((((a, b), c), d), e), g) -> put_int 1; List.iter put_nstr [a; b; c; d; e; g]
+           | Raise e -> put_exn e)
+        | _ -> put_int 9)
+     | _ -> put_int 9; put_int 9);
+    put_nstr (spec_uri_with p fp n q f); put_bool (with_guard p fp n q f);
+    put_bool (path_has_authority fp && with_guard p [n_of_int 47] n q f && opt_scalar (Some fp))
   | c -> failwith ("unknown command " ^ c)
 let () = main_loop dispatch
